@@ -21,6 +21,12 @@ func workload(seed int64) scenario {
 	sc := scenario{TimeoutMs: 50}
 	sc.BMC = scnBMC{Users: []scnUser{{Name: "admin", Password: pw, MaxPriv: 4}}, Seed: seed,
 		GUID: "00112233445566778899aabbccddeeff", Suites: [][]int{{100, su[0], su[1], su[2]}, {3, 1, 1, 1}}, LooseSeq: true}
+	// some BMCs are "modern" (also offer suite 17), some are not: with the library's default preferences the
+	// proposal must depend only on this connection's BMC
+	modern := rng.Intn(2) == 0
+	if modern {
+		sc.BMC.Suites = append(sc.BMC.Suites, []int{17, 3, 4, 1})
+	}
 	for i := 0; i < 4; i++ {
 		body := make([]byte, 46)
 		rng.Read(body)
@@ -35,10 +41,13 @@ func workload(seed int64) scenario {
 	sc.Steps = append(sc.Steps, scnStep{Op: "cmd", Conn: "sessionless", Cmd: scnCmd{Name: "authcaps", P: []int64{1, 14, 4}}, Script: scripts[rng.Intn(len(scripts))]})
 	for round := 0; round < 1+rng.Intn(2); round++ {
 		var offered [][]int
-		if rng.Intn(2) == 0 {
+		switch rng.Intn(3) {
+		case 0:
 			offered = [][]int{su}
-		} else {
+		case 1:
 			offered = [][]int{{2, 4, 1}, su} // forces cipher suite discovery
+		default:
+			offered = nil // the library's defaults (17, then 3), with discovery
 		}
 		sc.Steps = append(sc.Steps, scnStep{Op: "open", User: "admin", Password: pw, Priv: 4, Lookup: true, Suites: offered})
 		for i := 0; i < 3+rng.Intn(8); i++ {
